@@ -428,7 +428,11 @@ pub fn fold(rep: &mut Report, prop: &str, results: Vec<JobResult>) {
 
 /// `--replay FILE`: re-execute the recorded schedule (no exploration) with loom's log on.
 pub fn replay(args: &Args) -> ! {
-    let path = args.replay.clone().unwrap();
+    let mut path = args.replay.clone().unwrap();
+    // the driver runs us in the workspace directory: a relative path is meant relative to /verif
+    if path.is_relative() && !path.exists() {
+        path = args.verif_dir.join(&path);
+    }
     let text = std::fs::read_to_string(&path)
         .unwrap_or_else(|e| mcx::machinery_error(&format!("cannot read {}: {e}", path.display())));
     let v: Value = mcx::serde_json::from_str(&text)
